@@ -234,7 +234,7 @@ StringDictionaryRPHTFC::StringDictionaryRPHTFC(IteratorDictString *it,
       // Updating the ptr value to the beginning of the corresponding internal
       // string
       ptrB = beginnings[bucket - 1];
-      ptrE = beginnings[bucket] - 1;
+      ptrE = beginnings[bucket];
 
       // Adding an ending decodeable string  (if required)
       if (textSubstr.size() > 0) {
@@ -280,7 +280,7 @@ StringDictionaryRPHTFC::StringDictionaryRPHTFC(IteratorDictString *it,
       offset = 0;
       textStrings[bytesStrings] = 0;
 
-      for (; ptrB <= ptrE; ptrB++)
+      for (; ptrB < ptrE; ptrB++)
         bytesStrings += encodeSymbol(intStrings[ptrB],
                                      &(textStrings[bytesStrings]), &offset);
 
